@@ -18,6 +18,7 @@ INVS = ["NodeContracts", "EdgeExact", "SiblingOrder", "MetadataFlat", "RcBalance
 # which property a rejected clause speaks about (plain traces); failure traces all belong to C16
 CLAUSE_PROP = {
     "deliveries": "C01", "emissions": "C01", "node_state": "C01", "links": "C01",
+    "deliveries_md": "C10", "emissions_md": "C10",
     "NodeContracts": "C01", "EdgeExact": "C01", "SiblingOrder": "C01",
     "MetadataFlat": "C10",
     "refcounts": "C05", "callbacks": "C05", "RcBalanced": "C05", "RcNonNegative": "C05",
@@ -103,14 +104,36 @@ def _validate(work, what, res, mutant=None, only=None, tier="quick", seed=0):
                           files, out, timeout=1500)
     rej = []
     acc = 0
+    state_only = 0
     for f, r in results:
         if r.error and "REJECT" not in r.out and "ACCEPT" not in r.out:
             raise core.MachineryError("trace validation failed to run on %s: %s" % (f, r.error[:800]))
         a, rj = tv.verdicts(r.out)
         ex = tv.expected(r.out)
+        cl = tv.clauses(r.out)
         acc += len(a)
+        # the validation goes on after a mismatch: collect, per trace, every clause on which it deviates (first step each).
+        # node_state -- an observation of private attributes -- is optional evidence: a trace that deviates on nothing
+        # else merely represents its state differently and is not reported.
+        per = {}
         for tid, step, clause in rj:
-            rej.append((traces[tid], step, clause, ex.get(tid)))
+            per.setdefault(tid, []).append((step, clause))
+        for tid, lst in per.items():
+            names, first = {}, None
+            for step, clause in sorted(lst):
+                cs = list(cl.get((tid, step), []))
+                if clause not in cs and clause + "_md" not in cs:      # (Verdict does not tell data from metadata; AllClauses does)
+                    cs.insert(0, clause)
+                for c in cs:
+                    names.setdefault(c, step)
+                first = first or clause
+            beh = {c: s_ for c, s_ in names.items() if c != "node_state"}
+            if not beh:
+                state_only += 1
+                acc += 1
+                continue
+            for c, s_ in sorted(beh.items(), key=lambda kv: kv[1]):
+                rej.append((traces[tid], s_, c, ex.get(tid) if c == first else None))
         if r.error:
             # an evaluation error inside a trace: the logged data has a shape the specification
             # cannot even evaluate -> attribute to the traces not yet judged in this shard
@@ -123,6 +146,7 @@ def _validate(work, what, res, mutant=None, only=None, tier="quick", seed=0):
                     break
     shutil.rmtree(out, ignore_errors=True)
     meta["accepted"] = acc
+    meta["state_only"] = state_only
     return meta, traces, rej
 
 
